@@ -80,10 +80,15 @@ class WMSGetMap(Harness):
         lim = 10 ** 7
         assume(AND(qx0 >= -lim, qx0 <= lim, qy0 >= -lim, qy0 <= lim,
                    c[0] >= -lim, c[1] >= -lim, c[2] <= lim, c[3] <= lim, c[2] - c[0] >= 1, c[3] - c[1] >= 1))
+        if cfg['coverage'] == 'L':
+            # polygon coverage (model of GeomCoverage, which is shapely): the hull c minus its upper right part beyond (nx, ny)
+            nx, ny = real_var('notch_x'), real_var('notch_y')
+            assume(AND(nx > c[0], nx < c[2], ny > c[1], ny < c[3]))
+            return dict(qx0=qx0, qy0=qy0, cov=c, notch=[nx, ny])
         return dict(qx0=qx0, qy0=qy0, cov=c)
 
     @classmethod
-    def prop(cls, ctx, cfg, qx0, qy0, cov):
+    def prop(cls, ctx, cfg, qx0, qy0, cov, notch=None):
         from mapproxy.srs import SRS, SupportedSRS
         w, g, ly, covm = ctx['w'], ctx['g'], ctx['ly'], ctx['cov']
         W, H = cfg['size']
@@ -93,13 +98,26 @@ class WMSGetMap(Harness):
         ev = []
         sup = [SRS(c) for c in SRS_SETS[cfg['srs_set']]]
         coverage = covm.BBOXCoverage(tuple(cov), qsrs) if cfg['coverage'] else None
+        rects = [tuple(cov)]
+        if cfg['coverage'] == 'L':
+            r1 = (cov[0], cov[1], notch[0], cov[3])
+            r2 = (cov[0], cov[1], cov[2], notch[1])
+            rects = [r1, r2]
+
+            class LCoverage(covm.BBOXCoverage):
+                def intersects(self, bbox, srs):
+                    return OR(g.bbox_intersects(r1, bbox), g.bbox_intersects(r2, bbox))
+
+                def contains(self, bbox, srs):
+                    return OR(g.bbox_contains(r1, bbox), g.bbox_contains(r2, bbox))
+            coverage = LCoverage(tuple(cov), qsrs)
         rr = g.resolution_range(min_res=cfg.get('min_res'), max_res=cfg.get('max_res')) if (cfg.get('min_res') or cfg.get('max_res')) else None
         src = w.WMSSource(RecClient(ev), image_opts=_Opts(cfg.get('opt_format')), coverage=coverage, res_range=rr,
                           supported_srs=SupportedSRS(sup) if sup else None,
                           supported_formats=list(cfg.get('formats') or []), fwd_req_params=set())
         src.opacity = None
         query = ly.MapQuery(qbbox, (W, H), qsrs, cfg.get('query_format', 'image/png'), dimensions={'time': 't', 'elevation': '5'})
-        inter = AND(cov[0] < qbbox[2], cov[2] > qbbox[0], cov[1] < qbbox[3], cov[3] > qbbox[1]) if cfg['coverage'] else True
+        inter = OR(*[AND(r[0] < qbbox[2], r[2] > qbbox[0], r[1] < qbbox[3], r[3] > qbbox[1]) for r in rects]) if cfg['coverage'] else True
         in_range = True
         if cfg.get('min_res'):
             in_range = AND(in_range, res < cfg['min_res'] + 1e-6)
@@ -276,10 +294,14 @@ def obligations(tier, seed):
         dict(srs_set='utm', query_srs='EPSG:25832', coverage=True, size=(300, 200), res=10.0, formats=['image/png'], opt_format='image/tiff'),
         dict(srs_set='utm', query_srs='EPSG:25832', coverage=True, size=(300, 200), res=10.0, formats=['image/jpeg'], query_format='image/png'),
     ]
+    extra.append(dict(srs_set='utm', query_srs='EPSG:25832', coverage='L', size=(256, 256), res=10.0))
+    if tier == 'thorough':
+        extra.append(dict(srs_set='none', query_srs='EPSG:25832', coverage='L', size=(600, 17), res=2.5))
+        extra.append(dict(srs_set='merc_alias', query_srs='EPSG:3857', coverage='L', size=(256, 256), res=10.0, max_res=20.0))
     cfgs = base + extra if tier == 'thorough' else base[::2] + extra
     for i, c in enumerate(cfgs):
         c = dict(c, size=list(c['size']))
-        name = 'wms-get-map/%s/%s/%s/%dx%d@%s%s' % (c['srs_set'], c['query_srs'], 'cov' if c['coverage'] else 'nocov', c['size'][0], c['size'][1], c['res'],
+        name = 'wms-get-map/%s/%s/%s/%dx%d@%s%s' % (c['srs_set'], c['query_srs'], ('polygon-cov' if c['coverage'] == 'L' else 'cov') if c['coverage'] else 'nocov', c['size'][0], c['size'][1], c['res'],
                                                    ''.join('/%s=%s' % (k, c[k]) for k in ('min_res', 'max_res', 'formats', 'opt_format') if c.get(k)))
         specs.append(spec(MOD, 'WMSGetMap', name, cfg=c, cost=10))
     for fwd, keys in ((['time'], ['time', 'elevation']), (['TIME', 'Elevation'], ['time', 'elevation', 'dim_x']), ([], ['time']),
